@@ -16,6 +16,7 @@ import (
 	"regexp"
 	"strings"
 	"sync"
+	"syscall"
 	"time"
 )
 
@@ -173,8 +174,8 @@ func describeCfg(c e2eCfg) string {
 	if c.upload {
 		dir = "upload"
 	}
-	return fmt.Sprintf("%s binary=%v escape=%v dir=%v overwrite=%v compress=%q bufsize=%q proto=%d", dir, c.binary, c.escape,
-		c.directory, c.overwrite, c.compress, c.bufsize, c.proto)
+	return fmt.Sprintf("%s binary=%v escape=%v dir=%v overwrite=%v compress=%q bufsize=%q proto=%d relays=%d tunnel=%v", dir, c.binary, c.escape,
+		c.directory, c.overwrite, c.compress, c.bufsize, c.proto, c.relays, c.tunnel)
 }
 
 func genFidelity(c *ctx) {
@@ -183,6 +184,7 @@ func genFidelity(c *ctx) {
 	n := c.pick(96, 1500)
 	cases := make([]*fidCase, n)
 	protos := []int{-1, 0, 2, 3, 4, 9}
+	spinning := 0
 	for i := range cases {
 		fc := &fidCase{seed: c.rng.Int63(), shape: c.rng.Intn(3), big: c.rng.Intn(4) == 0}
 		fc.cfg = e2eCfg{
@@ -196,6 +198,17 @@ func genFidelity(c *ctx) {
 			timeout:   10,
 			quiet:     c.rng.Intn(2) == 0,
 			deadline:  40 * time.Second,
+			relays:    []int{0, 0, 1, 2}[c.rng.Intn(4)],
+			tunnel:    c.rng.Intn(4) == 0,
+		}
+		if fc.cfg.relays > 0 && fc.cfg.tunnel {
+			// a relay's tunnel pumps busy-loop for ever once their connection is closed
+			// (relay.go tunnelRelay.wrapInput/wrapOutput only leave on io.EOF; observed: 2 cores
+			// per finished tunnel transfer) - keep only a couple of these per run
+			spinning++
+			if spinning > 2 {
+				fc.cfg.tunnel = false
+			}
 		}
 		if fc.shape == 1 {
 			fc.cfg.directory = true
@@ -280,6 +293,8 @@ func genFidelity(c *ctx) {
 		c.count(fmt.Sprintf("upload:%v", fc.cfg.upload))
 		c.count(fmt.Sprintf("binary:%v", fc.cfg.binary))
 		c.count(fmt.Sprintf("shape:%d", fc.shape))
+		c.count(fmt.Sprintf("relays:%d", fc.cfg.relays))
+		c.count(fmt.Sprintf("tunnel:%v", fc.cfg.tunnel))
 		if len(fc.diffs) > 0 {
 			key := "fidelity:" + strings.SplitN(fc.diffs[0], ":", 2)[0]
 			c.violate(key, "end-to-end transfer over a fault-free transport did not reproduce the source",
@@ -293,4 +308,122 @@ func tailStr(s string, n int) string {
 		return s[len(s)-n:]
 	}
 	return s
+}
+
+// ---- descriptor growth: more files in one transfer than a process may hold open ----
+
+func init() { groups["e2e-fds"] = genFds }
+
+func countFds(pid int) int {
+	dir := "/proc/self/fd"
+	if pid > 0 {
+		dir = fmt.Sprintf("/proc/%d/fd", pid)
+	}
+	ents, err := os.ReadDir(dir)
+	if err != nil {
+		return -1
+	}
+	return len(ents)
+}
+
+func genFds(c *ctx) {
+	work, _ := os.MkdirTemp("", "e2e_fds_")
+	defer os.RemoveAll(work)
+	nfiles := c.pick(150, 600)
+	type fdCase struct {
+		name      string
+		upload    bool
+		directory bool
+	}
+	cases := []fdCase{
+		{"upload-flat", true, false}, {"download-flat", false, false},
+		{"upload-dir-archive", true, true}, {"download-dir-archive", false, true},
+	}
+	for i, fc := range cases {
+		root := filepath.Join(work, fmt.Sprint(i))
+		dest := filepath.Join(root, "dest")
+		os.MkdirAll(dest, 0755)
+		var tops []string
+		if fc.directory {
+			d := filepath.Join(root, "s", "many")
+			os.MkdirAll(d, 0755)
+			for j := 0; j < nfiles; j++ {
+				os.WriteFile(filepath.Join(d, fmt.Sprintf("f%04d", j)), []byte(fmt.Sprint(j)), 0644)
+			}
+			tops = []string{d}
+		} else {
+			os.MkdirAll(filepath.Join(root, "s"), 0755)
+			for j := 0; j < nfiles; j++ {
+				p := filepath.Join(root, "s", fmt.Sprintf("f%04d", j))
+				os.WriteFile(p, []byte(fmt.Sprint(j)), 0644)
+				tops = append(tops, p)
+			}
+		}
+		base := countFds(0)
+		var peakSelf, peakChild int
+		stop := make(chan struct{})
+		var run *e2eRun
+		cfg := e2eCfg{upload: fc.upload, directory: fc.directory, timeout: 10, proto: -1, quiet: true, deadline: 120 * time.Second,
+			onStart: func(r *e2eRun) { run = r }}
+		done := make(chan struct{})
+		go func() {
+			defer close(done)
+			for {
+				select {
+				case <-stop:
+					return
+				default:
+				}
+				if n := countFds(0); n > peakSelf {
+					peakSelf = n
+				}
+				if r := run; r != nil && r.cmd.Process != nil {
+					if n := countFds(r.cmd.Process.Pid); n > peakChild {
+						peakChild = n
+					}
+				}
+				time.Sleep(500 * time.Microsecond)
+			}
+		}()
+		res := runTransfer(cfg, tops, dest)
+		close(stop)
+		<-done
+		grow := peakSelf - base
+		c.note(true, fmt.Sprintf("fds %s files=%d client-growth=%d server-peak=%d ok=%v", fc.name, nfiles, grow, peakChild, !res.hung))
+		c.count("fds:" + fc.name)
+		limit := 40
+		if grow > limit || peakChild > limit {
+			c.violate("fd-growth:"+fc.name, "open descriptors grow with the number of files in one transfer",
+				fmt.Sprintf("%s files=%d: client descriptors grew by %d (baseline %d), server peak %d; bound %d", fc.name, nfiles, grow, base, peakChild, limit))
+		}
+		if res.hung || !res.clientDone {
+			c.violate("fd-run-failed:"+fc.name, "many-file transfer did not complete", tailStr(res.termOut+res.serverOut, 300))
+		}
+		os.RemoveAll(root)
+	}
+}
+
+func init() { groups["probe-spin"] = probeSpin }
+
+// probe: after a tunnel transfer through a relay, is a relay goroutine busy-looping?
+func probeSpin(c *ctx) {
+	work, _ := os.MkdirTemp("", "e2e_spin_")
+	defer os.RemoveAll(work)
+	rng := rand.New(rand.NewSource(1))
+	tops := makeSourceTree(rng, work, 0, false)
+	dest := filepath.Join(work, "dest")
+	os.MkdirAll(dest, 0755)
+	res := runTransfer(e2eCfg{upload: true, relays: 1, tunnel: true, timeout: 5, proto: -1, quiet: true}, tops, dest)
+	time.Sleep(2 * time.Second)
+	var ru1, ru2 syscall.Rusage
+	syscall.Getrusage(syscall.RUSAGE_SELF, &ru1)
+	time.Sleep(time.Second)
+	syscall.Getrusage(syscall.RUSAGE_SELF, &ru2)
+	cpu := float64(ru2.Utime.Nano()+ru2.Stime.Nano()-ru1.Utime.Nano()-ru1.Stime.Nano()) / 1e9
+	gs := goroutinesOf("tunnelRelay")
+	c.note(true, fmt.Sprintf("spin probe: transfer ok=%v; cpu used in 1 idle second: %.2fs; tunnelRelay goroutines: %d", res.clientDone, cpu, len(gs)))
+	for _, g := range gs {
+		fmt.Fprintln(os.Stderr, tailStr(g, 600))
+	}
+	fmt.Fprintf(os.Stderr, "cpu in idle second: %.2f\n", cpu)
 }
